@@ -36,7 +36,7 @@ from syne_tune.optimizer.schedulers.synchronous import SynchronousGeometricHyper
 
 PID = "C16"
 LEVEL = "proof"
-LEAN_TARGETS = ["SyneTune.Props.C16"]
+LEAN_TARGETS = ["SyneTune.Props.C16", "SyneTune.Props.C16Restrict"]
 DRIVER = "SyneTune/Drivers/Searcher.lean"
 THEOREMS = [
     "SyneTune.C16.random",
@@ -44,24 +44,41 @@ THEOREMS = [
     "SyneTune.C16.grid",
     "SyneTune.C16.grid_reshuffled_counterexample",
     "SyneTune.C16.state_codec",
+    # random searcher with restrict_configurations (Props/C16Restrict.lean)
+    "SyneTune.C16R.random_restricted",
+    "SyneTune.C16R.restricted_bisimulation",
+    "SyneTune.C16R.empty_list_roundtrip",
+    "SyneTune.C16R.used_up_answers_none",
+    "SyneTune.C16R.empty_list_dropped_counterexample",
+    "SyneTune.C16R.failures_keep_list",
+    "SyneTune.C16R.filtered_restore_counterexample",
 ]
 TRUSTED = [
-    "hand-written models lean/SyneTune/Model/{RandomSearcher,Grid,Searcher}.lean tied to /repo by the searcher stream "
-    "(clone operations replayed in the model, codec lines on live GP searcher states)",
+    "hand-written models lean/SyneTune/Model/{RandomSearcher,RandomRestrict,Grid,Searcher}.lean tied to /repo by the searcher stream "
+    "(clone operations replayed in the model — with restrict_configurations the restored remaining list (None / [] / longer), "
+    "_rc_returned_pos and the caller's list object are compared after the clone and after every later call; codec lines on live GP "
+    "searcher states)",
+    "numpy RandomState.randint(low=0, high=n) returns a position below n (recorded by a per-instance proxy of the searcher's random_state)",
     "numpy RandomState.get_state/set_state: the generator state is an opaque position on the tape of draws",
     "dill / pickle, CPython object model (the `dill` half is decided by twin traces only: translation validation)",
     "Python harness harness/props/c16.py, harness/streams/searcher.py",
 ]
 ASSUMPTIONS = [
     "the snapshot is pickled between get_state and clone_from_state (documented: 'state must be pickle-able'; "
-    "the tests of the library do the same); the clone is built on a freshly constructed searcher",
+    "the tests of the library do the same — get_state returns the live restrict_configurations list, not a copy); "
+    "the clone is built on a freshly constructed searcher",
+    "restrict_configurations: the snapshot is taken between two calls of the searcher (_rc_returned_pos is empty there — proved "
+    "for RandomSearcher, C06R.returned_pos_empty_between_calls — and is not part of the state)",
     "GP searchers are compared in the regime without surrogate-model fit (num_init_random large) for get_state/clone; "
     "with model fits only through the dill twins of FIFO/Hyperband(bayesopt)",
     "schedulers that draw from numpy's global generator (MOASHA) are compared with the global generator seeded "
     "identically before each twin step (ambient state is not part of the pickled object)",
 ]
 RULE = ("cases: (a) searcher stream with clone operations (random / grid, via the searcher itself and via a fresh "
-        "template with another seed) — reference style; (b) clone twins at EVERY prefix of histories of suggest / "
+        "template with another seed) — reference style; (a') the same for RandomSearcher with restrict_configurations (lists of "
+        "length 1, lists equal to the initial configurations, lists with repeated entries, allow_duplicates both ways, failing "
+        "trials), clone operations also right after the searcher has said 'nothing left'; (b4) clone twins with "
+        "restrict_configurations, allow_duplicates=True and failing trials (snapshots after a failure); (b) clone twins at EVERY prefix of histories of suggest / "
         "pending / failed / update events for RandomSearcher (incl. restrict_configurations, allow_duplicates), "
         "GridSearcher (shuffled, num_samples), GPFIFOSearcher, GPMultiFidelitySearcher; (c) dill twins at every prefix "
         "of scripted worker histories for FIFOScheduler(random|grid|bayesopt), HyperbandScheduler(stopping|promotion; "
@@ -211,6 +228,7 @@ def run_clone_twin(spec):
     L = spec.get("lookahead", 12)
     compared = noninit = 0
     n_gets_before = 0
+    after_failure = 0      # snapshots taken after >= 1 failed trial and continued over >= 1 non-initial suggestion
     for i, st in enumerate(states):
         via = ["template", "self-kind"][i % 2] if kind in ("random", "grid") else "template"
         try:
@@ -224,6 +242,7 @@ def run_clone_twin(spec):
             break
         diverged = False
         gets = n_gets_before
+        noninit0 = noninit
         for j in range(i, min(i + L, len(script))):
             try:
                 try:
@@ -270,6 +289,8 @@ def run_clone_twin(spec):
                 break
         if diverged:
             break
+        if noninit > noninit0 and any(op[0] == "failed" for op in script[:i]):
+            after_failure += 1
         if script[i][0] == "get":
             n_gets_before += 1
     hist.update({f"clone-twin:{kind}": 1, f"clone-twin:{kind}:clones": len(states),
@@ -277,6 +298,10 @@ def run_clone_twin(spec):
                  f"clone-twin:{kind}:non-initial-suggestions-compared": noninit})
     if spec.get("raw_state"):
         hist["clone-twin:raw-state-cases"] = 1
+    if kind == "random" and ctor.get("restrict") is not None:
+        tag = f"clone-twin:random:restricted:allow_duplicates={bool(ctor.get('allow_duplicates'))}"
+        hist[tag] = 1
+        hist[tag + ":snapshots-after-a-failure-continued-over-a-draw"] = after_failure
     return {"lines": [], "monitor": findings, "meta": {"hist": hist, "nontrivial": noninit > 0}}
 
 
@@ -543,11 +568,28 @@ def gen_cases(rng, tier):
                "n_events": (14 if bo else 40) if quick else (24 if bo else 120), "lookahead": 3 if bo else 6,
                "every": 2 if bo else 1, "n_workers": rng.randint(1, 4)}
     # (d) GP state codec on live states
-    for _ in range(6 if quick else 60):
+    for _ in range(10 if quick else 80):
         finite = rng.random() < 0.5
         yield {"scenario": "gp", "space": S.gen_space(rng, finite=finite, small=finite, consts=True), "seed": rng.randrange(10 ** 9),
-               "sched": rng.choice(["fifo", "hb-stopping", "hb-promotion"]), "n_suggest": 8, "num_init_random": 3,
-               "num_init_candidates": 6, "p2e": None, "p_fail": 0.15, "allow_duplicates": False}
+               "sched": rng.choice(["fifo", "hb-stopping", "hb-promotion", "hb-promotion"]), "n_suggest": 8, "num_init_random": 3,
+               "num_init_candidates": 6, "p2e": None, "p_fail": 0.15, "allow_duplicates": False,
+               # with "all" a running trial has a pending evaluation at every level up to its milestone
+               "searcher_data": rng.choice(["rungs", "all", "all"])}
+    # (a') reference style with clone operations, restrict_configurations (model lines incl. the remaining list); generated
+    # last: the cases above are the same as before for a given seed
+    for i in range(30 if quick else 400):
+        yield dict(S.gen_restricted_case(rng, i, p_clone=rng.choice([0.15, 0.3]), sched_ok=False), clone_when_used_up=True)
+    # (b4) clone twins: restrict_configurations with allow_duplicates=True and failing trials — the exclusion list then holds the
+    # configurations of failed trials, which stay in the searcher's list (C16R.failures_keep_list): snapshots after a failure
+    # must restore the list as it is
+    for _ in range(14 if quick else 200):
+        space = S.gen_space(rng, finite=rng.random() < 0.3, small=False, consts=False)
+        cs = S.build_space(space)
+        s0 = RandomSearcher(dict(cs), metric=METRIC, points_to_evaluate=[], random_seed=rng.randrange(1000), allow_duplicates=True)
+        yield {"scenario": "clone-twin", "kind": "random", "space": space, "p2e": rng.choice([[], None]),
+               "ctor": {"allow_duplicates": True, "random_seed": rng.randrange(1000), "shuffle": True, "num_samples": {},
+                        "debug_log": False, "restrict": [S._plain(s0.get_config()) for _ in range(rng.randint(3, 8))]},
+               "n_ops": 30, "seed": rng.randrange(10 ** 9), "lookahead": 12, "raw_state": False}
 
 
 def corpus():
@@ -648,6 +690,26 @@ def run_impl(spec):
                for e in ev if e["ev"] == "clone-error"]
         hist = {"ref:" + spec["kind"]: 1, "ref:clone-ops": clones, "ref:suggestions-after-clone": sugg_after,
                 "ref:clone-errors": len(mon)}
+        if (spec.get("ctor") or {}).get("restrict") is not None:
+            cl = [e for e in ev if e["ev"] == "caller-list" and e["when"] == "clone"]
+            none_after = 0
+            seen_clone = False
+            for e in ev:
+                seen_clone = seen_clone or e["ev"] == "clone"
+                none_after += int(seen_clone and e["ev"] == "none")
+            hist.update({"ref:restricted": 1, "ref:restricted:clone-ops": len(cl),
+                         "ref:restricted:clones-with-empty-remainder": sum(1 for e in cl if e["remaining"] == []),
+                         "ref:restricted:clones-with-nonempty-remainder": sum(1 for e in cl if e["remaining"]),
+                         "ref:restricted:none-after-clone": none_after,
+                         "ref:restricted:allow_duplicates=" + str(bool(spec["ctor"].get("allow_duplicates"))): 1})
+            # the restored searcher must hold a list again (None would lift the restriction)
+            for e in cl:
+                if e["remaining"] is None:
+                    mon.append({"signature": "c16:random-clone-loses-restrict-configurations",
+                                "what": "the searcher restored by clone_from_state has _restrict_configurations=None although the "
+                                        "original was restricted (remaining list of the original: "
+                                        f"{[x['remaining'] for x in ev if x['ev'] == 'caller-list'][-2:]!r})"})
+                    break
         return {"lines": t["lines"], "monitor": mon, "meta": {"hist": hist, "nontrivial": sugg_after > 0}}
     t = S.run_gp_scenario(spec)
     ev = t["events"]
